@@ -1,5 +1,6 @@
 """E1 - program model of /repo/discretisedfield (parsed on every run, nothing imported)."""
 import ast
+import copy
 import hashlib
 import os
 
@@ -95,28 +96,166 @@ def _positive(test):
     return test, flipped
 
 
-class _CanonicalBranches(ast.NodeTransformer):
-    """Two-way alternatives are put into one orientation before any rule looks at them: `if not c: A else: B` is read as
-    `if c: B else: A` (likewise for !=, is not, not in, and for conditional expressions).  Guards without an else and
-    elif chains keep their form.  Rules therefore never depend on which way round an alternative is written."""
+def _block_terminates(stmts):
+    """no path falls through the end of the block (raise / return / continue / break on all paths)"""
+    if not stmts:
+        return False
+    last = stmts[-1]
+    if isinstance(last, (ast.Raise, ast.Return, ast.Continue, ast.Break)):
+        return True
+    if isinstance(last, ast.If):
+        return bool(last.orelse) and _block_terminates(last.body) and _block_terminates(last.orelse)
+    return False
 
-    def visit_If(self, node):
-        self.generic_visit(node)
-        two_way = node.orelse and not (len(node.orelse) == 1 and isinstance(node.orelse[0], ast.If))
-        if two_way:
-            test, flipped = _positive(node.test)
-            if flipped:
-                node.test = test
-                node.body, node.orelse = node.orelse, node.body
-        return node
+
+def _always_raises(stmts):
+    if not stmts:
+        return False
+    last = stmts[-1]
+    if isinstance(last, ast.Raise):
+        return True
+    if isinstance(last, ast.If):
+        return bool(last.orelse) and _always_raises(last.body) and _always_raises(last.orelse)
+    return False
+
+
+def _negated(test):
+    if isinstance(test, ast.UnaryOp) and isinstance(test.op, ast.Not):
+        return test.operand
+    inv = {ast.Eq: ast.NotEq, ast.NotEq: ast.Eq, ast.Is: ast.IsNot, ast.IsNot: ast.Is, ast.In: ast.NotIn, ast.NotIn: ast.In}
+    if isinstance(test, ast.Compare) and len(test.ops) == 1 and type(test.ops[0]) in inv:
+        new = ast.Compare(left=test.left, ops=[inv[type(test.ops[0])]()], comparators=test.comparators)
+        return ast.copy_location(new, test)
+    return ast.copy_location(ast.UnaryOp(op=ast.Not(), operand=test), test)
+
+
+def _is_negative(test):
+    """the test is written as a negation (not c, a != b, a is not b, a not in b, or a disjunction/conjunction of such)"""
+    if isinstance(test, ast.UnaryOp) and isinstance(test.op, ast.Not):
+        return True
+    if isinstance(test, ast.Compare) and len(test.ops) == 1 and type(test.ops[0]) in _NEG_CMP:
+        return True
+    if isinstance(test, ast.BoolOp):
+        return all(_is_negative(x) for x in test.values)
+    return False
+
+
+def _negate_negative(test):
+    """the positive counterpart of a test for which _is_negative holds (De Morgan for and/or of negations)"""
+    if isinstance(test, ast.BoolOp):
+        dual = ast.And() if isinstance(test.op, ast.Or) else ast.Or()
+        return ast.copy_location(ast.BoolOp(op=dual, values=[_negate_negative(x) for x in test.values]), test)
+    return _negated(test)
+
+
+def _to_positive(test):
+    """(test', flipped): strip negations until the test is no longer written as one"""
+    flipped = False
+    for _ in range(8):
+        if not _is_negative(test):
+            break
+        test = _negate_negative(test)
+        flipped = not flipped
+    return test, flipped
+
+
+class _CanonicalBranches(ast.NodeTransformer):
+    """Control flow is put into one canonical form before any rule looks at it, so that rules never depend on which of
+    several equivalent ways an alternative is written.  The control-flow graph of a function is the same before and after;
+    only the nesting and the orientation of tests change.
+
+    * an alternative whose arms both fall through keeps its two arms, with the test in its positive form (`if not c: A
+      else: B` is read as `if c: B else: A`; likewise !=, is not, not in, and conditional expressions);
+    * guard-clause style: when an arm cannot fall through (it ends in raise / return / continue / break on all its paths)
+      it becomes a guard `if <its condition>: <arm>` and the other arm follows un-nested.  `if c: A; return x` followed by
+      the rest of the block is the same thing as `if c: A; return x  else: <rest>`; when both arms leave, the guard is the
+      arm that always raises, otherwise the arm whose condition is positive.  elif chains of leaving arms therefore become
+      sequences of guards, however they were nested;
+    * a guard that only raises under a disjunction is split: `if a or b: raise E` is read as `if a: raise E` followed by
+      `if b: raise E` (the same control flow)."""
 
     def visit_IfExp(self, node):
         self.generic_visit(node)
-        test, flipped = _positive(node.test)
+        test, flipped = _to_positive(node.test)
         if flipped:
             node.test = test
             node.body, node.orelse = node.orelse, node.body
         return node
+
+    def _guard(self, st, cond, arm):
+        """[if cond: arm] with raise-only disjunctions split"""
+        if len(arm) == 1 and isinstance(arm[0], ast.Raise) and isinstance(cond, ast.BoolOp) and isinstance(cond.op, ast.Or):
+            out = []
+            for k, val in enumerate(cond.values):
+                body = arm[0] if k == 0 else copy.deepcopy(arm[0])
+                out.extend(self._guard(st, val, [body]))
+            return out
+        return [ast.copy_location(ast.If(test=cond, body=arm, orelse=[]), st)]
+
+    def _two_way_leaving(self, st, cond, arm_t, arm_f):
+        """both arms leave: `if cond: arm_t else: arm_f` -> guard + the other arm"""
+        rt, rf = _always_raises(arm_t), _always_raises(arm_f)
+        pos, flipped = _to_positive(cond)          # pos holds on arm_t iff not flipped
+        if rt != rf:
+            guard_true = rt
+        else:
+            guard_true = not flipped
+        if guard_true:
+            return self._guard(st, cond if not flipped else _negated(pos), arm_t) + arm_f
+        return self._guard(st, pos if flipped else _negated(pos), arm_f) + arm_t
+
+    def _flatten(self, stmts, fn_level=False):
+        out = []
+        i = 0
+        while i < len(stmts):
+            st = stmts[i]
+            rest = stmts[i + 1:]
+            if isinstance(st, ast.If):
+                body, orelse = st.body, st.orelse
+                tb = _block_terminates(body)
+                if orelse:
+                    te = _block_terminates(orelse)
+                    if tb and te:
+                        out.extend(self._two_way_leaving(st, st.test, body, orelse))
+                        i += 1
+                        continue
+                    if tb:
+                        out.extend(self._guard(st, st.test, body))
+                        out.extend(self._flatten(orelse + rest, fn_level))
+                        return out
+                    if te:
+                        pos, flipped = _to_positive(st.test)
+                        out.extend(self._guard(st, pos if flipped else _negated(pos), orelse))
+                        out.extend(self._flatten(body + rest, fn_level))
+                        return out
+                    pos, flipped = _to_positive(st.test)
+                    if flipped:
+                        st.test = pos
+                        st.body, st.orelse = orelse, body
+                    out.append(st)
+                    i += 1
+                    continue
+                if tb and rest and _block_terminates(rest):
+                    # `if c: A(leaves)` + rest(leaves) is a two-way alternative as well
+                    out.extend(self._two_way_leaving(st, st.test, body, self._flatten(rest, fn_level)))
+                    return out
+                if tb:
+                    out.extend(self._guard(st, st.test, body))
+                    i += 1
+                    continue
+            out.append(st)
+            i += 1
+        return out
+
+    def generic_visit(self, node):
+        super().generic_visit(node)
+        for fld in ("body", "orelse", "finalbody"):
+            b = getattr(node, fld, None)
+            if isinstance(b, list) and b and isinstance(b[0], ast.stmt):
+                setattr(node, fld, self._flatten(b, fn_level=isinstance(node, (ast.FunctionDef, ast.AsyncFunctionDef)) and fld == "body"))
+        return node
+
+    visit_If = generic_visit
 
 
 class ModuleInfo:
